@@ -234,7 +234,7 @@ func c03tRun(in c03tInput) (msg, key string, infra bool, cases int) {
 			echo.got = echo.got[:0]
 			var out json.RawMessage
 			var err error
-			if i == len(in.Docs)-1 && in.Transport != "bridge" {
+			if i == len(in.Docs)-1 {
 				// the last document travels oneway and the client closes at once: the handler still reads it
 				before := echo.handled.Load()
 				if _, err = conn.Send(ctx, "t.r.Echo", json.RawMessage(doc), varlink.Oneway); err != nil {
